@@ -1,23 +1,46 @@
 #!/bin/bash
-# usage: confirm_seed.sh <ID> <agent-worktree> : copies the seed into /verif/seeded/<ID>/ and re-confirms it in a fresh scratch worktree:
-#   demo fails with the change, passes without it; unit tests of ./x/... ./app/... pass with the change
+# usage: confirm_seed.sh <ID> [<agent-worktree>] : copies the seed into /verif/seeded/<ID>/ (when an agent worktree is given) and
+# re-confirms it in a fresh scratch worktree:
+#   demo fails with the change, passes without it; with the change everything builds and every test of the pinned suite
+#   (/root/.vp/BASELINE.json stable_pass, 505 tests, go test ./...) still passes
 id=$1; wt=$2
-out=/verif/seeded/$id; mkdir -p $out
-cp $wt/_seed/patch.diff $out/patch.diff
-cp $wt/_seed/meta.json $out/meta.agent.json 2>/dev/null
+out=/verif/seeded/$id; mkdir -p $out /verif/out/confirm
+if [ -n "$wt" ] && [ -d $wt/_seed ]; then
+  cp $wt/_seed/patch.diff $out/patch.diff
+  cp $wt/_seed/meta.json $out/meta.agent.json
+  for f in $(cd $wt && find . -name 'zz_demo*' -not -path './_seed/*' -type f); do mkdir -p $out/demo/$(dirname $f); cp $wt/$f $out/demo/$f; done
+fi
 d=/tmp/mine/confirm-$id
-git -C /repo worktree remove --force $d >/dev/null 2>&1; rm -rf $d
+git -C /repo worktree remove --force $d >/dev/null 2>&1
 git -C /repo worktree add --detach $d HEAD >/dev/null 2>&1 || exit 2
 export GOFLAGS=-mod=mod GOPROXY=off
-demos=$(cd $wt && find . -name 'zz_demo*' -not -path './_seed/*' -type f)
-for f in $demos; do mkdir -p $d/$(dirname $f); cp $wt/$f $d/$f; mkdir -p $out/demo/$(dirname $f); cp $wt/$f $out/demo/$f; done
-cmd=$(python3 -c "import json;print(json.load(open('$wt/_seed/meta.json'))['demo_cmd'])")
-cmd=$(echo "$cmd" | sed "s#$wt#$d#g")
+demos=$(cd $out/demo && find . -type f)
+for f in $demos; do mkdir -p $d/$(dirname $f); cp $out/demo/$f $d/$f; done
+cmd=$(python3 -c "import json;print(json.load(open('$out/meta.agent.json'))['demo_cmd'])")
+cmd=$(echo "$cmd" | sed "s#/tmp/wt-$id#$d#g")
 cd $d
-echo "== demo WITHOUT the change"; (eval "timeout 3000 $cmd" 2>&1 | tail -4); r0=${PIPESTATUS[0]}
+log=/verif/out/confirm/$id
+echo "== demo WITHOUT the change: $cmd"; timeout 3000 bash -c "$cmd" > $log.demo0 2>&1; r0=$?; tail -3 $log.demo0
 git apply $out/patch.diff || { echo "PATCH DOES NOT APPLY"; exit 2; }
-echo "== demo WITH the change"; (eval "timeout 3000 $cmd" 2>&1 | tail -6); r1=${PIPESTATUS[0]}
+echo "== demo WITH the change"; timeout 3000 bash -c "$cmd" > $log.demo1 2>&1; r1=$?; grep -m6 -E "_test.go:[0-9]+:|--- FAIL|^FAIL|panic:" $log.demo1 | cut -c1-300
 for f in $demos; do rm -f $d/$f; done
-echo "== unit tests WITH the change"; go build ./... && go test -vet=off -count=1 -timeout 60m ./x/... ./app/... 2>&1 | grep -v "^ok\|no test files" | tail -5; r2=${PIPESTATUS[0]}
+echo "== pinned suite WITH the change (go test ./... ; judged per test against BASELINE stable_pass)"
+go build ./... || { echo "BUILD FAILS"; exit 2; }
+go test -json -vet=off -count=1 -timeout 25m ./... > $log.suite.json 2>$log.suite.err
+python3 - $log.suite.json <<'P'
+import json,sys
+b=json.load(open('/root/.vp/BASELINE.json'))
+passed=set(); failed=set()
+for l in open(sys.argv[1]):
+    try: e=json.loads(l)
+    except Exception: continue
+    if e.get('Test') and e.get('Action') in('pass','fail'):
+        (passed if e['Action']=='pass' else failed).add(e['Package']+'::'+e['Test'])
+missing=[t for t in b['stable_pass'] if t not in passed]
+print('stable tests: %d, passed with the change: %d, missing/failed: %d'%(len(b['stable_pass']),len(b['stable_pass'])-len(missing),len(missing)))
+for t in missing[:10]: print('  NOT PASSED', t, '(failed)' if t in failed else '(did not finish)')
+open(sys.argv[1]+'.rc','w').write('0' if not missing else '1')
+P
+r2=$(cat $log.suite.json.rc); rm -f $log.suite.json $log.suite.json.rc $log.suite.err
 echo "RESULT $id demo_without_rc=$r0 demo_with_rc=$r1 unit_rc=$r2"
 cd /; git -C /repo worktree remove --force $d >/dev/null 2>&1
